@@ -154,6 +154,7 @@ def make_oracle_retry_policy(rng=None, weights=(3, 1, 1, 3), p_keep_cl=0.4, scri
         def __init__(self):
             self.log = []
             self.closed = False
+            self.window = None       # dict(allowed=[decision kinds]): draw from these and keep the consistency level (concurrent errors)
             self.script = list(script) if script is not None else None
 
         def _decide(self, method, query, retry_num, consistency, fields):
@@ -161,6 +162,8 @@ def make_oracle_retry_policy(rng=None, weights=(3, 1, 1, 3), p_keep_cl=0.4, scri
                 return (RetryPolicy.RETHROW, None)
             if self.script is not None:
                 d = self.script.pop(0) if self.script else (RetryPolicy.RETHROW, None)
+            elif self.window is not None:
+                d = (rng.choice(self.window['allowed']), None)
             else:
                 kind = rng.choices([RETRY, RETHROW, IGNORE, RETRY_NEXT_HOST], weights)[0]
                 cl = None if rng.random() < p_keep_cl else rng.choice(CLS)
